@@ -1,3 +1,4 @@
 import HopModel.Props.C14
+import HopModel.Props.C11Decoders
 import HopModel.Props.C18
 import HopModel.Props.C20
